@@ -160,6 +160,28 @@ func runRef(c RefCase, r *runlog.R) error {
 		}
 		seen[e.k] = true
 	}
+	// keys that overlap after classification (an unusual separator splits the
+	// spelling itself, so the key's path can run through a sibling's leaf, or
+	// two keys can name the same setting): rejecting such a map is documented
+	// behaviour and not this check's subject
+	{
+		probe := newNode()
+		for _, e := range append(append([]kv{}, own...), refs...) {
+			ks := classifyEsc(e.k, c.Sep, max, numKeys, c.Escape)
+			big := false
+			for _, s := range ks {
+				big = big || (s.isIdx && s.idx > materialLimit())
+			}
+			if big {
+				continue
+			}
+			if probe.insert(ks, e.v) == errConflict {
+				r.Class("discarded: keys overlap after classification")
+				r.Discard()
+				return nil
+			}
+		}
+	}
 	asMap := func(l []kv) map[string]interface{} {
 		m := map[string]interface{}{}
 		for _, e := range l {
